@@ -175,7 +175,19 @@ func c14Positive(c *core.C) {
 			text := gen.Layout(r, toks)
 			var ch biscuit.Check
 			var err error
-			if pi := lib.Try(func() { ch, err = p.Check(text, libParams(params)) }); pi != nil {
+			if pi := lib.Try(func() {
+				switch r.Intn(8) {
+				default:
+					ch, err = p.Check(text, libParams(params))
+				case 1:
+					ch, err = parser.FromStringCheckWithParams(text, libParams(params))
+				case 2:
+					// the panicking variant is only asked once the text is known to parse
+					if ch, err = p.Check(text, libParams(params)); err == nil {
+						ch = p.Must().Check(text, libParams(params))
+					}
+				}
+			}); pi != nil {
 				c.Violate("parse-panic/"+pi.Site+"/check", pi.Msg, map[string]any{"text": text})
 				continue
 			}
@@ -200,7 +212,18 @@ func c14Positive(c *core.C) {
 			text := gen.Layout(r, toks)
 			var po biscuit.Policy
 			var err error
-			if pi := lib.Try(func() { po, err = p.Policy(text, libParams(params)) }); pi != nil {
+			if pi := lib.Try(func() {
+				switch r.Intn(8) {
+				default:
+					po, err = p.Policy(text, libParams(params))
+				case 1:
+					po, err = parser.FromStringPolicyWithParams(text, libParams(params))
+				case 2:
+					if po, err = p.Policy(text, libParams(params)); err == nil {
+						po = p.Must().Policy(text, libParams(params))
+					}
+				}
+			}); pi != nil {
 				c.Violate("parse-panic/"+pi.Site+"/policy", pi.Msg, map[string]any{"text": text})
 				continue
 			}
@@ -229,11 +252,29 @@ func c14Positive(c *core.C) {
 			if pi := lib.Try(func() {
 				if withPol {
 					var pa biscuit.ParsedAuthorizer
-					pa, err = p.Authorizer(text, libParams(params))
+					switch r.Intn(8) {
+					default:
+						pa, err = p.Authorizer(text, libParams(params))
+					case 1:
+						pa, err = parser.FromStringAuthorizerWithParams(text, libParams(params))
+					case 2:
+						if pa, err = p.Authorizer(text, libParams(params)); err == nil {
+							pa = p.Must().Authorizer(text, libParams(params))
+						}
+					}
 					facts, rules, checks, pols = pa.Block.Facts, pa.Block.Rules, pa.Block.Checks, pa.Policies
 				} else {
 					var pb biscuit.ParsedBlock
-					pb, err = p.Block(text, libParams(params))
+					switch r.Intn(8) {
+					default:
+						pb, err = p.Block(text, libParams(params))
+					case 1:
+						pb, err = parser.FromStringBlockWithParams(text, libParams(params))
+					case 2:
+						if pb, err = p.Block(text, libParams(params)); err == nil {
+							pb = p.Must().Block(text, libParams(params))
+						}
+					}
 					facts, rules, checks = pb.Facts, pb.Rules, pb.Checks
 				}
 			}); pi != nil {
@@ -280,10 +321,22 @@ func c14Positive(c *core.C) {
 }
 
 func parseFact(p parser.Parser, r *rand.Rand, text string, params parser.ParametersMap) (biscuit.Fact, error) {
-	if r.Intn(2) == 0 {
-		return p.Fact(text, params)
+	switch r.Intn(8) {
+	case 1:
+		if len(params) == 0 {
+			return parser.FromStringFact(text)
+		}
+		return parser.FromStringFactWithParams(text, params)
+	case 2:
+		f, err := p.Fact(text, params)
+		if err == nil {
+			f = p.Must().Fact(text, params)
+		}
+		return f, err
+	case 3:
+		return parser.FromStringFactWithParams(text, params)
 	}
-	return parser.FromStringFactWithParams(text, params)
+	return p.Fact(text, params)
 }
 
 // c14Adjacency records which precedence levels were seen directly nested in which order.
